@@ -432,7 +432,7 @@ def jsonable(c):
 def correspondence(ctx):
     rng = ctx.rng("corr")
     n = ctx.n(400, 4000)
-    cases = [gen_case(rng, i) for i in range(n)]
+    cases = directed_cases() + [gen_case(rng, i) for i in range(n)]
     terms, keep, nt = [], [], set()
     dist = {"ops": 0, "rejected:support": 0, "rejected:check": 0, "raised:later": 0, "accepted": 0, "classes": {}, "exceptions": {}}
     for c in cases:
@@ -462,6 +462,11 @@ def correspondence(ctx):
         a, b = rng.randint(1, 3), rng.randint(1, 3)
         ia, ib = rng.random() < 0.8, rng.random() < 0.8
         link_terms.append(_link_case(a, b, ia, ib))
+    # the runner and the model it executes are (re)built from the current sources, independently of the proofs
+    ok, log, failed = core.compile_cone(core.coq_cone("run/RunC12.v"))
+    if not ok:
+        return {"evaluations": len(cases), "distinct_nontrivial": len(nt), "rule": "", "samples": keep[:3], "failing": [],
+                "error": "cannot build run/RunC12.v (%s):\n%s" % (failed, log[-1500:])}
     failing, err = core.run_cases(ctx.pid, IMPORTS, terms + [t for t, _ in link_terms])
     fl = []
     for i in failing:
@@ -650,9 +655,11 @@ def _judge(c):
                 out.append(_viol(key, "%s raises %s only after the node was modified (%s %s); node before %s, after %s"
                                  % (desc, r["msg"], reason, detail, _bs(b), _bs(a)), c, k, b, a))
             continue
-        # (iii) accepted well-formed input of T steps -> T rows of width output_dim
+        # (iii) accepted well-formed input of T steps -> T rows of width output_dim (a 1-D output that goes with a 1-D
+        #       state is the same defect and is reported once, under the state key below)
         T = wellformed_rows(nd, o)
-        if r["exc"] is None and T is not None and a["init"]:
+        state_bad = r["exc"] is None and a["init"] and a["state"] != [1, a["outd"]]
+        if r["exc"] is None and T is not None and a["init"] and not state_bad:
             if r["out"] != [T, a["outd"]]:
                 out.append(_viol("rows:%s:%s" % (o["op"], short(nd["cls"])), "%s returns shape %s instead of (%d, %s)"
                                  % (desc, r["out"], T, a["outd"]), c, k, [T, a["outd"]], r["out"]))
@@ -710,6 +717,19 @@ def directed_cases():
         cs.append({"node": {"cls": "ScikitLearnNode", "outd": 1},
                    "ops": [{"op": "fit", "x": arr([5, d], "f", 4), "y": arr([5, 1], "f", 5)},
                            {"op": "call", "x": arr([1, d], "f", 6)}, {"op": "run", "x": arr([3, d], "f", 7)}]})
+    # arrays with too many axes and a wrong feature count (accepted / rejected late before ad5a298)
+    for cls in ("Identity", "Delay", "Reservoir"):
+        nd = {"cls": cls, "delay": 2, "units": 3, "seed": 1}
+        cs.append({"node": dict(nd), "ops": [{"op": "run", "x": arr([2, 3], "f", 8)}, {"op": "call", "x": arr([1, 2, 2, 5], "f", 9)}]})
+        cs.append({"node": dict(nd), "ops": [{"op": "run", "x": arr([2, 3], "f", 8)}, {"op": "run", "x": arr([1, 1, 1, 5], "f", 9)}]})
+    # Concat given a one-element list (3-D output before e9d4225)
+    cs.append({"node": {"cls": "Concat"}, "ops": [{"op": "call", "x": {"t": "list", "items": [arr([1, 2], "f", 10)]}}]})
+    cs.append({"node": {"cls": "Concat"}, "ops": [{"op": "run", "x": {"t": "list", "items": [arr([4, 3], "f", 11)]}}]})
+    # the two open findings: 3-D array to call / run of an initialised node; ragged feature counts on an uninitialised node
+    cs.append({"node": {"cls": "Identity"}, "ops": [{"op": "run", "x": arr([2, 3], "f", 12)}, {"op": "call", "x": arr([2, 1, 3], "f", 13)}]})
+    cs.append({"node": {"cls": "Identity"}, "ops": [{"op": "run", "x": arr([2, 3], "f", 12)}, {"op": "run", "x": arr([4, 3, 3], "f", 13)}]})
+    cs.append({"node": {"cls": "Ridge"}, "ops": [{"op": "fit", "x": {"t": "list", "items": [arr([4, 3], "f", 14), arr([4, 4], "f", 15)]},
+                                                   "y": {"t": "list", "items": [arr([4, 2], "f", 16), arr([4, 2], "f", 17)]}}]})
     return cs
 
 
